@@ -45,4 +45,13 @@ def main(argv):
 
 
 if __name__ == "__main__":
-    sys.exit(main(sys.argv[1:]))
+    try:
+        rc = main(sys.argv[1:])
+    except SystemExit:
+        raise
+    except BaseException:  # a crash of the machinery is a harness error (2), never a verdict about the code under test
+        import traceback
+        traceback.print_exc()
+        print("HARNESS ERROR: unexpected exception in the checker", file=sys.stderr)
+        sys.exit(2)
+    sys.exit(rc)
